@@ -209,8 +209,9 @@ int add_local_name (char *str, int type) {
       ihe = find_or_add_ident (str, FOA_NEEDS_MALLOC);
       type_of_locals_ptr[max_num_locals] = (lpc_type_t)type;
       locals_ptr[current_number_of_locals++] = ihe;
-      if (ihe->dn.local_num == -1)
-        ihe->sem_value++;
+      /* every entry of the locals table holds one count: the entries are released one by one, also when a name
+       * was declared twice (an error, but parsing goes on) */
+      ihe->sem_value++;
       return (ihe->dn.local_num = (short)max_num_locals++);
     }
 }
